@@ -114,7 +114,7 @@ pub fn c11() -> Simple {
         id: "C11",
         decided_by: "inputs (handshake responses) x configurations (TLS offered, accept/reject) x arrival schedule (commands pipelined behind the handshake)",
         rule_text: "one run = greeting + a handshake response in the 4.1 layout (random 32-bit capability masks with PROTOCOL_41, user names of 0..300 arbitrary non-NUL bytes, arbitrary trailing auth/db/plugin bytes) or the 3.20 layout, shim offering TLS or not, accepting or rejecting with a typed token, 0..5 commands released together with the handshake or after it; also CLIENT_SSL requested without TLS on offer. Oracle: first packet has id 0, protocol 10, NUL-terminated version, 8+1 scramble bytes, PROTOCOL_41 advertised, CLIENT_SSL advertised <=> TLS offered; after_authentication exactly once, before any other callback, with the user bytes as sent; reject => ERR 1045/28000, run_on returns that token, no command callback; accept => OK with the next sequence id. Distinct = plan signature.",
-        quick: 900_000,
+        quick: 700_000,
         thorough: 15_000_000,
         budget_q: 60,
         budget_t: 600,
@@ -163,7 +163,14 @@ fn gen_c18(r: &mut Rng, _t: Tier, job: u64) -> Plan {
         v13: r.chance(2, 3),
         seed: r.next(),
             chain: *r.pick(&[0u8, 0, 1, 2, 3]),
+            big_hello: false,
     });
+    // a quarter of the runs: a ClientHello of about 5 KiB (does not fit into the first 4096-byte
+    // read together with the SSLRequest); the first read then walks sizes around 4096 as well
+    let big_hello = r.chance(1, 4);
+    if let Some(t) = &mut p.cfg.tls {
+        t.big_hello = big_hello;
+    }
     p.cfg.tls_offered = !r.chance(1, 12);
     p.cfg.tls_require_cert = cert || r.chance(1, 4);
     if r.chance(1, 10) {
@@ -176,7 +183,15 @@ fn gen_c18(r: &mut Rng, _t: Tier, job: u64) -> Plan {
     // split points around SSLRequest | ClientHello: a first read of exactly b bytes, walking b
     // deterministically with the job index, then a seeded personality
     p.reads = gen_reads(r);
-    let b = (job % 330) as u32;
+    let mut b = (job % 330) as u32;
+    if big_hello && r.coin() {
+        b = match r.below(4) {
+            0 => 0, // as much as the server asks for: SSLRequest + the first 4060 bytes of the hello
+            1 => 4090 + r.below(12) as u32,
+            2 => 36 + 4096 + r.below(8) as u32,
+            _ => 5000 + r.below(300) as u32,
+        };
+    }
     p.reads.explicit = if b == 0 { vec![] } else { vec![b] };
     if r.chance(1, 6) {
         p.reads.explicit.push(1 + r.below(40) as u32);
